@@ -343,9 +343,12 @@ def d6_selection(ctx):
 
 
 def run(ctx):
-    b2, dl = d1_threading(ctx)
-    d2_padding(ctx)
-    d3_offsets(ctx, b2, dl)
-    d4_rows(ctx)
-    d5_gather(ctx)
-    d6_selection(ctx)
+    r = ctx.run(d1_threading)
+    ctx.run(d2_padding)
+    if r is not None:
+        ctx.run(d3_offsets, r[0], r[1])
+    else:
+        ctx.errors.append(("D3", "not evaluated: depends on the call binding found by D1"))
+    ctx.run(d4_rows)
+    ctx.run(d5_gather)
+    ctx.run(d6_selection)
